@@ -155,3 +155,24 @@ TEXTS["C03"] = {
             "HandleIBTPData is refused today only because the registry's contract instance has a nil service cache (observed, not proved).",
     "technique": "Lean 4 theorems (verdict characterisation, no-effect via journal faithfulness, threshold loop invariant) + differential correspondence (executor; verifyMultiSign with real signatures) + state-dump monitor",
 }
+
+TEXTS["C05"] = {
+    "text": "Proved on the model of BeginMultiTXs / changeMultiTxStatus / Report for every ledger, group and child, against the FSM table regenerated from transaction_manager.go: the global state becomes SUCCESS only when every recorded "
+            "child is SUCCESS and their number is the declared count (C05_global_success_needs_all); a group that left BEGIN without success can never become SUCCESS (C05_failed_group_never_succeeds); a failure receipt in BEGIN sets the "
+            "group to BEGIN_FAILURE, the reporter to FAILURE and every other child, succeeded ones included, to BEGIN_FAILURE (C05_failure_receipt_flips_all); a child that cannot begin does the same and the notify lists are exactly "
+            "all earlier children (source) / the earlier succeeded children (destinations) (C05_begin_failure_flips_all, C05_report_failure_notifies). On the real node a protocol monitor written from the property text follows every group "
+            "through receipts, status queries and the per-block multi-tx / timeout metadata. Four defects repaired by fix: commits (destinations never told on a failure receipt; all children filed under the first child's chain; notify "
+            "lists and timed-out children in Go map order).",
+    "note": TB + " Inter-BitXHub groups (union pier) are outside the op language; the timeout of a group is checked by the monitor and the model, not by a separate theorem.",
+    "technique": "Lean 4 theorems over the executable transaction-manager model (FSM table regenerated) + differential correspondence + group protocol monitor",
+}
+TEXTS["C01"] = {
+    "text": "The Lean model of block execution is a function of (configuration, ledger, block), so everything the correspondence run shows to agree with it is deterministic. What the model abstracts away is covered by (1) an inventory of "
+            "every range over a Go map in the block-execution packages, regenerated from /repo on every run (lean/Bxh/Gen/MapRanges.lean), with kernel-checked table theorems: every loop that appends / builds a string in map order is sorted "
+            "afterwards or is one of three reviewed ones, every loop that writes state or posts events per map entry is a reviewed one, no reviewed entry is stale (C01_appending_map_loops_are_sorted, C01_writing_map_loops_are_reviewed, "
+            "C01_reviewed_entries_exist, C01_repaired_loops_sorted); (2) a correspondence run that executes the traffic of every generator of the framework on three replicas with different local tuning (serial / parallel proof verification), "
+            "one of them stopped and reopened at random places, and requires identical receipts, delivery / timeout / multi-tx metadata, block hash and all four roots. Five defects repaired by fix: commits (map-ordered notify lists and "
+            "timed-out children stored in state / metadata; an emptied timeout list read differently from cache and from disk after a restart; stale state changer).",
+    "note": TB + " PARTIAL: goroutine interleavings are exercised, not enumerated; the parallel executor type is not registered in this build and is not covered; XVM/EVM transactions are outside the op language; wall-clock time does not reach the compared outputs (timestamps are inputs).",
+    "technique": "Lean 4 table theorems (decide +kernel over the regenerated map-range inventory) + functional model + replica/restart differential correspondence",
+}
